@@ -292,6 +292,10 @@ def file_shapes(ctx, lua, rng, count):
                 b''.join(n + b'\n=1\n' for n in per[160:] if n[2] >= 128 and all(c >= 128 or c in b'_a1' for c in n)) + b'x=2\n' +
                 # (words in braces, percent signs, dollar signs: text, with glyphs around them)
                 b'-- {gfx} \x8e {map} \x97 {lua} {label} {version} %s ${x}\nlevels={map}\nt={sfx,music,gff}\n' +
+                # (text that means something to other text formats - mark-up fences, character references, entities, escapes of other
+                # languages - is code like any other: as lines of their own in a comment and a string, and as operators)
+                b'--[[\n```lua\n```\n~~~\n\x8e &amp; &lt;b&gt; &#9829; &#x2665; &hearts; \\u2665 %e2%99%a5 =?utf-8?q?=E2=99=A5?=\n<!-- -->\n]]\n'
+                b'doc=[[\n```\n&lt;\x97&gt;\n~~~\n]]\na=f&lt;b=f&gt;\nc=d&amp\n' +
                 # (glyphs in every kind of token that can hold them: names, labels, strings, long strings, comments)
                 b'::l\x80\xff:: ' + bytes(rng.choice(allglyph[17:]) for _ in range(3)) + b'=1 goto l\x80\xff\n::\x8e::\n')
         ctx.case(code)
@@ -303,7 +307,7 @@ def file_shapes(ctx, lua, rng, count):
         ctx.monitor('file_roundtrips')
         ctx.feature('lines_of_underscored_glyph_words')
         if back != code:
-            ctx.violation('.p8 path changed code bytes on lines of the form __<glyphs>__', {'kind': 'file', 'code': code})
+            ctx.violation('.p8 path changed code bytes (lines of the form __<glyphs>__, text that looks like mark-up)', {'kind': 'file', 'code': code})
             return
         # (c) the same bytes arriving through #include of another .p8 / .lua file
         inc_code = b'--' + bytes(b for b in rng.sample(list(allglyph), 60) if b not in (10, 13)) + b'\nq="' + bytes(
